@@ -23,7 +23,7 @@ for n in sorted(os.listdir('/verif/seeded')):
         st, own, other = prev.get('status', '?'), prev.get('own_keys', []), prev.get('other_properties', [])
     d['detection']['now'] = dict(status=st, own_keys=own, other_properties=other)
     json.dump(d, open(mp, 'w'), indent=1)
-    kind = 'precise' if any(k.endswith('[violation]') for k in own) else ('fail-closed' if own else 'MISSED')
+    kind = 'precise' if any(k.endswith('[violation]') for k in own) else ('thorough tier only' if any('(thorough)' in k for k in own) else ('fail-closed' if own else 'MISSED'))
     summ = (d.get('summary') or '').replace('|', '/').replace('\n', ' ')
     needs = (d.get('needs') or '').replace('|', '/').replace('\n', ' ')
     rows.append('| %s | %s | %s *(needs: %s)* | `%s`%s | %s | %s |' % (
